@@ -35,7 +35,8 @@ META = {
              'alf of the data stored, then ENOSPC / a short count), a retr'
              'ied close(), HTTP 403/404/500/503 replies; cli_faults: every'
              ' I/O call of the documented command-line steps x errno, a su'
-             'ccess status requires the fault-free destination.'),
+             'ccess status requires the fault-free destination.'
+             " Round 12: http_faults with per-shard layouts, outdated legacy files and the statuses 400/401/410/429/502."),
     "trusted_base": ["vlib/faultfs.py: crash model = process killed between "
                      "(or inside) application-level write calls, earlier "
                      "closed files intact; self-checked on every scenario by "
